@@ -101,7 +101,7 @@ func checkSummary(v *vcase.Verdict, c Case, xs []float64) {
 	sum := a.Summary(s, c.Confidence)
 	srt := sorted(xs)
 	n := len(srt)
-	slack := 4 * maxAbs(xs) * 0x1p-52
+	slack := maxAbs(xs) * 0x1p-50 // (written so that it cannot overflow)
 	inSample := func(x float64) bool {
 		for _, y := range srt {
 			if x == y {
@@ -410,6 +410,22 @@ func Check(c Case) (v vcase.Verdict) {
 		v.Failf("Compare sizes %d,%d want %d,%d", cmp.N1, cmp.N2, n1, n2)
 		return
 	}
+	// a warning that more samples are needed "to detect a difference" must be true: with these
+	// sample sizes even two completely separated samples would not reach the threshold (the
+	// smallest two-sided permutation p-value of n1 and n2 values is 2/C(n1+n2, n1))
+	for _, w := range cmp.Warnings {
+		if msg := w.Error(); strings.HasPrefix(msg, "need ") && strings.Contains(msg, "to detect a difference") {
+			minP := 2.0
+			for i := 1; i <= n1; i++ {
+				minP *= float64(i) / float64(n2+i)
+			}
+			if minP <= c.Alpha*(1-1e-12) {
+				v.Failf("%s.Compare on %d and %d values warns %q, but samples of these sizes can reach p = %g <= %v", c.Assume, n1, n2, msg, minP, c.Alpha)
+				return
+			}
+			v.Label("too_few_samples_warning")
+		}
+	}
 	tg := refstat.TieGroups(c.X1, c.X2)
 	ties := len(tg) < n1+n2
 	if ties {
@@ -620,6 +636,16 @@ func Gen(t *rapid.T) Case {
 			c.X2[i] *= 1.5
 		}
 	}
+	huge := vcase.OneIn(t, 12, "huge")
+	if huge {
+		// values near the top of the float range (the sum of two of them is not a float64);
+		// used with the models that only look at order statistics
+		for _, xs := range [][]float64{c.X1, c.X2} {
+			for i := range xs {
+				xs[i] = rapid.SampledFrom([]float64{1.0e308, 1.1e308, 1.2e308, 1.3e308, 1.5e308, 9.5e307, 1.7e308, math.MaxFloat64}).Draw(t, "hugev")
+			}
+		}
+	}
 	switch rapid.IntRange(0, 4).Draw(t, "confk") {
 	case 4:
 		// levels so close to 1 that up to (and beyond) 50 samples are needed for a finite interval
@@ -662,6 +688,12 @@ func Gen(t *rapid.T) Case {
 	c.Assume = rapid.SampledFrom([]string{"nothing", "nothing", "exact", "normal"}).Draw(t, "assume")
 	c.Shuffle = rapid.SliceOfN(rapid.IntRange(0, 1000), 6, 6).Draw(t, "shuffle")
 	c.ScaleExp = rapid.SampledFrom([]int{0, 1, -3, 10, -20, 40}).Draw(t, "scale")
+	if huge {
+		c.ScaleExp = rapid.SampledFrom([]int{0, -3, -20}).Draw(t, "hugescale")
+		if c.Assume == "normal" {
+			c.Assume = "nothing"
+		}
+	}
 	if vcase.OneIn(t, 3, "range") {
 		pool := []float64{0, 1, -1, 1.5e308, -1.5e308, 1e308, -1e308, 9e307, -9e307, math.MaxFloat64, -math.MaxFloat64, 5e-324, -5e-324, 1e-310, -1e-310, 2.5, 100, -100, math.Inf(1), math.Inf(-1), 1e-300, -1e-300}
 		var xs []float64
